@@ -546,7 +546,32 @@ pub fn cluster(t: &mut Toks) -> String {
             }
         }
         let panics: Vec<String> = std::mem::take(&mut *PANICS.lock().unwrap());
-        let mut outs = vec![if panics.is_empty() { format!("acked={} rounds={}", acked, used) } else { format!("acked={} rounds={} panics={}", acked, used, panics.join(",")) }];
+        // every record of every acknowledged transaction, as broadcast by its origin (site = rank of the
+        // origin's actor id in byte order: what decides equal-value ties in the merge)
+        let mut ids: Vec<(Vec<u8>, usize)> = nodes.iter().enumerate().map(|(i, n)| (n.kit.agent.actor_id().to_bytes().to_vec(), i)).collect();
+        ids.sort();
+        let rank_of = |site: &[u8]| ids.iter().position(|(b, _)| b.as_slice() == site).map(|x| x as i64).unwrap_or(-1);
+        let mut recs: Vec<String> = vec![];
+        for n in nodes.iter_mut() {
+            collect_outbox(n);
+            for c in n.outbox.iter() {
+                if let Changeset::Full { changes, .. } = &c.changeset {
+                    for x in changes {
+                        let row = unpack_columns(&x.pk).ok().and_then(|v| v.first().and_then(|y| y.as_integer())).unwrap_or(-1);
+                        let val = match &x.val {
+                            klukai_types::api::SqliteValue::Text(t) => t.to_string(),
+                            klukai_types::api::SqliteValue::Null => "-".to_string(),
+                            other => format!("?{other:?}"),
+                        };
+                        recs.push(format!("{}/{}:{}:{}:{}:{}:{}:{}", row, if x.cid.as_str() == "-1" { "S" } else { "T" }, val, x.col_version, x.cl, rank_of(&x.site_id), x.db_version.0, x.seq.0));
+                    }
+                }
+            }
+        }
+        recs.sort();
+        recs.dedup();
+        let head = if panics.is_empty() { format!("acked={} rounds={}", acked, used) } else { format!("acked={} rounds={} panics={}", acked, used, panics.join(",")) };
+        let mut outs = vec![format!("{} recs={}", head, recs.join(","))];
         for n in nodes.iter() {
             let (tbl, clk, st) = node_dump(n).await;
             let mut heads: Vec<String> = vec![];
